@@ -21,6 +21,8 @@ import traceback
 
 VERIF = os.path.dirname(os.path.dirname(os.path.abspath(__file__)))
 REPO = os.environ.get("VERIF_REPO", "/repo")
+# evidence/ and replays/ go under /verif unless a seeded-change experiment redirects them (engine.seedtest)
+OUT = os.environ.get("VERIF_OUT") or os.path.dirname(os.path.dirname(os.path.abspath(__file__)))
 os.environ.setdefault("GRAPHIQ_VERIF", "1")
 os.environ.setdefault("MPLBACKEND", "Agg")
 for _v in ("OMP_NUM_THREADS", "OPENBLAS_NUM_THREADS", "MKL_NUM_THREADS"):
@@ -53,7 +55,7 @@ class Ctx:
         self.action_coverage = {}
         self.known = findings.load(pid)
         import glob
-        for old in glob.glob(os.path.join(VERIF, "replays", pid + "-*.json")):
+        for old in glob.glob(os.path.join(OUT, "replays", pid + "-*.json")):
             os.remove(old)          # replays are rewritten by every run of this property's check
         self.sig_counts = {}
         self.suppressed = 0
@@ -134,7 +136,7 @@ class Ctx:
         obj.update({"property": self.pid, "seed": self.seed, "tier": self.tier})
         blob = json.dumps(obj, sort_keys=True, default=str)
         h = hashlib.sha1(blob.encode()).hexdigest()[:12]
-        d = os.path.join(VERIF, "replays")
+        d = os.path.join(OUT, "replays")
         os.makedirs(d, exist_ok=True)
         path = os.path.join(d, f"{self.pid}-{h}.json")
         with open(path, "w") as f:
@@ -175,8 +177,8 @@ class Ctx:
             "wall_s": round(wall, 2),
             "violations": len(self.violations) + self.suppressed,
         }
-        os.makedirs(os.path.join(VERIF, "evidence"), exist_ok=True)
-        with open(os.path.join(VERIF, "evidence", self.pid + ".json"), "w") as f:
+        os.makedirs(os.path.join(OUT, "evidence"), exist_ok=True)
+        with open(os.path.join(OUT, "evidence", self.pid + ".json"), "w") as f:
             json.dump(ev, f, indent=1, default=str)
         tlc.cleanup(self.workdir)
         status = "FAIL" if self.violations else "PASS"
